@@ -232,6 +232,11 @@ def _consumer_kwargs(ctx, fi, callee):
                         and norm(s.targets[0].value) == k.value.id and isinstance(s.targets[0].slice, ast.Constant) \
                         and s.lineno < call.lineno:
                     out[s.targets[0].slice.value] = s.value
+                # the dict re-built through a filter: {k: v for k, v in d.items() if v}
+                if isinstance(s, ast.Assign) and len(s.targets) == 1 and norm(s.targets[0]) == k.value.id \
+                        and isinstance(s.value, ast.DictComp) and s.lineno < call.lineno and s.value.generators \
+                        and s.value.generators[0].ifs and k.value.id in norm(s.value.generators[0].iter):
+                    out['__filter__'] = s.value
     return call, out
 
 
